@@ -1,5 +1,6 @@
 import LopdfModel.Lemmas.Text
 import LopdfModel.Spec.Charts
+import LopdfModel.Spec.ChartsFull
 /-
   C16 — property theorems (text strings and one-byte encodings round-trip text).
 
@@ -127,6 +128,57 @@ theorem special_blocks_agree :
 example : winAnsiChart (0xE9 : UInt8).toNat = some (some 0xE9) := by decide
 example : pdfDocChart (0xAD : UInt8).toNat = some none := by decide
 example : macRomanChart (0x80 : UInt8).toNat = some (some 0xC4) := by decide
+
+theorem font_tables_known_aux :
+    (FONT_ENCODINGS.all (fun p => ALL_TABLES.contains p.2) = true) ∧
+    (∀ p ∈ FONT_ENCODINGS, p.2 ∈ [STANDARD_ENCODING, MAC_ROMAN_ENCODING, MAC_EXPERT_ENCODING, WIN_ANSI_ENCODING, PDF_DOC_ENCODING]) := by
+  refine ⟨by decide +kernel, ?_⟩
+  have h : FONT_ENCODINGS.all (fun p => [STANDARD_ENCODING, MAC_ROMAN_ENCODING, MAC_EXPERT_ENCODING, WIN_ANSI_ENCODING,
+      PDF_DOC_ENCODING].contains p.2) = true := by decide +kernel
+  intro p hp
+  have := List.all_eq_true.mp h p hp
+  simpa using this
+
+/-- **Every table equals its published chart on all 256 codes.** The charts (`Spec/ChartsFull.lean`)
+come from sources other than lopdf — python3's `cp1252` / `mac_roman` / `latin_1` codecs with the
+deviations ISO 32000-1 Annex D documents, Annex D.2 written out for PDFDocEncoding — except
+StandardEncoding, MacExpertEncoding, Expert and Symbol, for which the sandbox has no independent
+source and the table of the pinned commit is frozen as the chart. Any later change of an entry of
+`mappings.rs` / `glyphnames.rs` breaks this theorem (and the harness names the differing byte). -/
+theorem tables_match_charts :
+    WIN_ANSI_ENCODING = CHART_WIN_ANSI_ENCODING ∧ MAC_ROMAN_ENCODING = CHART_MAC_ROMAN_ENCODING ∧
+    PDF_DOC_ENCODING = CHART_PDF_DOC_ENCODING ∧ STANDARD_ENCODING = CHART_STANDARD_ENCODING ∧
+    MAC_EXPERT_ENCODING = CHART_MAC_EXPERT_ENCODING ∧ EXPERT_ENCODING = CHART_EXPERT_ENCODING ∧
+    SYMBOL_ENCODING = CHART_SYMBOL_ENCODING := by
+  refine ⟨?_, ?_, ?_, ?_, ?_, ?_, ?_⟩ <;> decide +kernel
+
+/-- decoding a byte with a predefined encoding yields the character the published chart assigns
+(nothing where the chart has none) — for all five encodings reachable through `get_font_encoding` -/
+theorem decode_byte_is_chart (name : Bytes) (t : Table) (hm : (name, t) ∈ FONT_ENCODINGS) (b : UInt8) :
+    ∃ chart ∈ [CHART_STANDARD_ENCODING, CHART_MAC_ROMAN_ENCODING, CHART_MAC_EXPERT_ENCODING,
+        CHART_WIN_ANSI_ENCODING, CHART_PDF_DOC_ENCODING],
+      t = chart ∧ bytesToString t [b] = .ok (match chart[b.toNat]? with | some (some u) => [u] | _ => []) := by
+  have hk := font_tables_known_aux
+  have ht : t ∈ ALL_TABLES := by
+    have := List.all_eq_true.mp hk.1 (name, t) hm
+    simpa using this
+  have hdec := decode_never_fails t ht [b]
+  have hin : t ∈ [STANDARD_ENCODING, MAC_ROMAN_ENCODING, MAC_EXPERT_ENCODING, WIN_ANSI_ENCODING, PDF_DOC_ENCODING] :=
+    hk.2 (name, t) hm
+  obtain ⟨c1, c2, c3, c4, c5, _, _⟩ := tables_match_charts
+  refine ⟨t, ?_, rfl, ?_⟩
+  · simp only [List.mem_cons, List.not_mem_nil, or_false] at hin ⊢
+    rcases hin with h | h | h | h | h
+    · left; rw [h, c4]
+    · right; left; rw [h, c2]
+    · right; right; left; rw [h, c5]
+    · right; right; right; left; rw [h, c1]
+    · right; right; right; right; rw [h, c3]
+  · rw [hdec]
+    simp only [bytesToUnits, List.filterMap_cons, List.filterMap_nil, Table.cell]
+    cases t[b.toNat]? with
+    | none => rfl
+    | some c => cases c <;> rfl
 
 /-! ## 4. text strings -/
 
